@@ -601,7 +601,11 @@ class Evaluator:
                 v = self.expr(node.args[-1], p)
                 if isinstance(v, (IfVal, Choice)):
                     v = Unk('fork-in-append')
-                p.env[f.value.id].append(v if f.attr != 'extend' else Star(v))
+                if f.attr == 'insert' and len(node.args) == 2 and isinstance(node.args[0], ast.Constant) \
+                        and isinstance(node.args[0].value, int) and 0 <= node.args[0].value <= len(p.env[f.value.id]):
+                    p.env[f.value.id].insert(node.args[0].value, v)      # `conditions.insert(0, x)`
+                else:
+                    p.env[f.value.id].append(v if f.attr != 'extend' else Star(v))
                 if self.loop_depth:
                     p.open.add(f.value.id)
                 self.forget(f.value.id, p)
